@@ -373,6 +373,15 @@ func vInitialFontWeight() (int, []string) {
 //@   modifies anything
 //@   ensures[fresh-list] typeIs(_value, pr.Sizes) && len(_value.(pr.Sizes)) > 0 ==> fresh(result.(pr.Sizes))
 //@   loop 1 invariant fresh(out) && len(out) == len(value)
+// border-image-width and border-image-outset: the lengths are made absolute against the element's own font size
+// (numbers, percentages and auto are kept), into a list that does not share storage with the declared value
+//@ func borderImageLengths
+//@   props C04
+//@   requires computer != nil
+//@   modifies anything
+//@   loop 1 invariant fresh(values) && len(values) == len(declared) && (len(declared) > 0 ==> !samebase(values, declared))
+//@   call length_#1 assert[each-length-with-the-element-font-size] arg0 == computer && arg1 == value && arg2 == -1 && !arg3 && value.S != "auto" && value.Unit != pr.Scalar
+//@   return 3 ensures[fresh-list] len(declared) > 0 ==> fresh(result) && !samebase(result, declared)
 //@ func transforms
 //@   props C04
 //@   requires computer != nil
@@ -753,3 +762,78 @@ func vNestedOrder() (n int, fails []string) {
 
 //@ bounded vNestedOrder the computed width of an element for every style rule body of one to four items among a declaration, a nested `&` rule and a nested `&.a` rule (120 bodies), against the cascade by specificity then order of appearance
 //@   props C03
+
+// bounded stand-in (C04, "relative values are made absolute"): the computing functions are dispatched through a table
+// indexed by property; a property missing from it keeps its declared value. vNoRelativeLengthLeft declares, for every
+// known property, each of `2em`, `2em 3em`, `1in`, `calc`-free, and keeps the declarations the validator accepts:
+// in the computed style of the element no length in a font-relative or absolute unit other than px may remain
+// (reflection walk over the computed value; percentages, numbers, angles, times and px stay).
+func vNoRelativeLengthLeft() (n int, fails []string) {
+	logger.WarningLogger.SetOutput(io.Discard)
+	defer logger.WarningLogger.SetOutput(os.Stdout)
+	logger.ProgressLogger.SetOutput(io.Discard)
+	defer logger.ProgressLogger.SetOutput(os.Stdout)
+	bad := map[pr.Unit]string{pr.Em: "em", pr.Ex: "ex", pr.Ch: "ch", pr.Rem: "rem", pr.In: "in", pr.Pt: "pt", pr.Pc: "pc", pr.Cm: "cm", pr.Mm: "mm", pr.Q: "q"}
+	dimT := reflect.TypeOf(pr.Dimension{})
+	var walk func(v reflect.Value, depth int) string
+	walk = func(v reflect.Value, depth int) string {
+		if depth > 8 || !v.IsValid() {
+			return ""
+		}
+		if v.Type() == dimT {
+			if u, isBad := bad[pr.Unit(v.FieldByName("Unit").Uint())]; isBad {
+				return u
+			}
+			return ""
+		}
+		switch v.Kind() {
+		case reflect.Interface, reflect.Ptr:
+			if !v.IsNil() {
+				return walk(v.Elem(), depth+1)
+			}
+		case reflect.Struct:
+			for i := 0; i < v.NumField(); i++ {
+				if u := walk(v.Field(i), depth+1); u != "" {
+					return u
+				}
+			}
+		case reflect.Slice, reflect.Array:
+			for i := 0; i < v.Len(); i++ {
+				if u := walk(v.Index(i), depth+1); u != "" {
+					return u
+				}
+			}
+		}
+		return ""
+	}
+	for name, prop := range pr.PropsFromNames {
+		for _, value := range []string{"2em", "2em 3em", "1in", "1.5ex", "3rem 2pt"} {
+			src := "<style>p { font-size: 20px; " + name + ": " + value + " }</style><p></p>"
+			page, err := NewHTML(utils.InputString(src), "", nil, "")
+			if err != nil {
+				continue
+			}
+			styleFor := GetAllComputedStyles(page, nil, false, nil, nil, nil, nil, false, nil)
+			it := page.Root.Iter()
+			for it.HasNext() {
+				e := it.Next()
+				if e.Data != "p" {
+					continue
+				}
+				style, ok := styleFor.Get((*utils.HTMLNode)(e), "").(*ComputedStyle)
+				if !ok {
+					continue
+				}
+				n++
+				got := style.Get(prop.Key())
+				if u := walk(reflect.ValueOf(got), 0); u != "" && len(fails) < 8 {
+					fails = append(fails, fmt.Sprintf("%s: %s computes to %v: a length in %s is left", name, value, got, u))
+				}
+			}
+		}
+	}
+	return n, fails
+}
+
+//@ bounded vNoRelativeLengthLeft the computed value of every known property declared with 2em, 2em 3em, 1in, 1.5ex or 3rem 2pt (when the validator accepts it): no length in a unit other than px is left
+//@   props C04
